@@ -33,6 +33,11 @@ func encodeNumeric(content string, ecl ErrorCorrectionLevel) (*utils.BitList, *v
 		}
 
 		i, err := strconv.Atoi(curStr)
+		for _, r := range curStr {
+			if r < '0' || r > '9' {
+				err = strconv.ErrSyntax
+			}
+		}
 		if err != nil || i < 0 {
 			return nil, nil, fmt.Errorf("\"%s\" can not be encoded as %s", content, Numeric)
 		}
